@@ -838,6 +838,223 @@ def collapse_forwarders(j):
     return done
 
 
+def materialise_branching_consts(j):
+    """A named constant whose initialiser depends on T through a branch (`const CLASS: StorageClass = storage_class::<T>()`
+    with `const fn storage_class<T>() { if size_of::<T>() == 0 {..} else if size_of::<T>() > size_of::<*mut T>() {..} else {..} }`)
+    has no single value in the generic body.  Its initialiser is turned into a private zero-argument function and every use of
+    the constant into a call of it, so that the evaluator splices the initialiser in and forks on the size predicates exactly as
+    it does for the open-coded `if`.  Constants with a straight-line initialiser keep being evaluated in place."""
+    bodies = {b['key']: b for b in j['bodies']}
+
+    def branches(b, seen):
+        if b['key'] in seen:
+            return False
+        seen.add(b['key'])
+        for blk in b['blocks']:
+            t = blk['term']
+            if t['k'] == 'switch':
+                return True
+            if t['k'] == 'call' and t.get('fn') and t['fn'].get('local') and t['fn']['path'] in bodies:
+                if branches(bodies[t['fn']['path']], seen):
+                    return True
+        return False
+
+    targets = {}
+    for b in j['bodies']:
+        if str(b.get('def_kind', '')).startswith(('Const', 'AssocConst')) and b.get('arg_count', 0) == 0 and not b.get('promoted_of'):
+            if branches(b, set()):
+                targets[b['key']] = b
+    if not targets:
+        return 0
+    n = 0
+    for b in j['bodies']:
+        for body in [b] + list(b.get('promoted') or []):
+            if body['key'] in targets if 'key' in body else False:
+                continue
+            i = 0
+            while i < len(body['blocks']):
+                blk = body['blocks'][i]
+                hit = None
+                for si, st in enumerate(blk['stmts']):
+                    if st['k'] != 'assign':
+                        continue
+                    for o in operands(st['rv']):
+                        if o.get('k') == 'const' and o.get('constdef') in targets and 'val' not in o:
+                            hit = (si, o)
+                            break
+                    if hit:
+                        break
+                if hit is None:
+                    t = blk['term']
+                    cand = []
+                    if t['k'] == 'call':
+                        cand = list(t.get('args') or [])
+                    elif t['k'] == 'switch':
+                        cand = [t['o']]
+                    for o in cand:
+                        if o.get('k') == 'const' and o.get('constdef') in targets and 'val' not in o:
+                            hit = (len(blk['stmts']), o)
+                            break
+                if hit is None:
+                    i += 1
+                    continue
+                si, o = hit
+                key = o['constdef']
+                tmp = len(body['locals'])
+                body['locals'].append({'ty': o.get('ty'), 'name': None})
+                tail = {'cleanup': blk.get('cleanup', False), 'stmts': blk['stmts'][si:], 'term': blk['term']}
+                at = (blk['stmts'][si].get('at') if si < len(blk['stmts']) else blk['term'].get('at'))
+                nb = len(body['blocks'])
+                body['blocks'].append(tail)
+                blk['stmts'] = blk['stmts'][:si]
+                blk['term'] = {'k': 'call', 'fn': {'path': key, 'args': list(targets[key].get('generics') or []), 'local': True, 'crate': j.get('crate'),
+                                                   'full': key, 'name': key.split('::')[-1]},
+                               'args': [], 'dest': {'l': tmp, 'p': [], 'ty': o.get('ty')}, 'target': nb, 'unwind': None, 'at': at, 'fn_at': at, 'exp': False}
+                ty = o.get('ty')
+                o.clear()
+                o.update({'k': 'copy', 'p': {'l': tmp, 'p': [], 'ty': ty}})
+                n += 1
+                # the same block may use further constants: look at it again (its tail is a new block, visited later)
+    for key, b in targets.items():
+        b['def_kind'] = 'Fn'
+        b['const_init'] = True
+        b['vis'] = 'Restricted(const-init)'
+        b.setdefault('sig', 'fn() -> ' + str((b.get('locals') or [{}])[0].get('ty')))
+    return n
+
+
+
+PTR_METHOD_ALIASES = {
+    'read': ('std::ptr::read', None), 'read_unaligned': ('std::ptr::read_unaligned', None), 'read_volatile': ('std::ptr::read_volatile', None),
+    'write': ('std::ptr::write', None), 'write_unaligned': ('std::ptr::write_unaligned', None), 'write_volatile': ('std::ptr::write_volatile', None),
+    'copy_from_nonoverlapping': ('std::ptr::copy_nonoverlapping', (1, 0, 2)), 'copy_to_nonoverlapping': ('std::ptr::copy_nonoverlapping', (0, 1, 2)),
+    'copy_from': ('std::ptr::copy', (1, 0, 2)), 'copy_to': ('std::ptr::copy', (0, 1, 2)),
+    'drop_in_place': ('std::ptr::drop_in_place', None),
+}
+
+
+def canonicalise_ptr_methods(j):
+    """the inherent methods of raw pointers are aliases of the free functions of `core::ptr` (`p.read()` is `ptr::read(p)`,
+    `dst.copy_from_nonoverlapping(src, n)` is `ptr::copy_nonoverlapping(src, dst, n)`), and `p.cast::<U>()` is `p as *mut U`:
+    rewritten to the spelling the rules know"""
+    n = 0
+    for b in j['bodies']:
+        for body in [b] + list(b.get('promoted') or []):
+            for blk in body['blocks']:
+                t = blk['term']
+                if t['k'] != 'call' or not t.get('fn'):
+                    continue
+                path = t['fn'].get('path', '')
+                if not path.startswith(('std::ptr::mut_ptr::<impl *mut T>::', 'std::ptr::const_ptr::<impl *const T>::')):
+                    continue
+                m = path.rsplit('::', 1)[1]
+                if m in ('cast', 'cast_mut', 'cast_const') and len(t['args']) == 1 and t.get('target') is not None:
+                    blk['stmts'].append({'k': 'assign', 'lhs': t['dest'], 'rv': {'k': 'cast', 'ck': 'PtrToPtr', 'o': t['args'][0], 'ty': t['dest'].get('ty')},
+                                         'at': t.get('at'), 'exp': False})
+                    blk['term'] = {'k': 'goto', 'target': t['target'], 'at': t.get('at')}
+                    n += 1
+                    continue
+                if m in PTR_METHOD_ALIASES:
+                    newp, perm = PTR_METHOD_ALIASES[m]
+                    if perm is not None:
+                        if len(t['args']) != len(perm):
+                            continue
+                        t['args'] = [t['args'][i] for i in perm]
+                    fa = t['fn'].get('args') or []
+                    t['fn'] = dict(t['fn'], path=newp, name=newp.split('::')[-1], full=newp, args=fa[:1])
+                    t['fn'].pop('impl_self', None)
+                    n += 1
+    return n
+
+
+
+def adopt_terminator_wake(j):
+    """`Signal::wake(this: *const Signal<T>, state)` moved onto the capability type that wraps the pointer
+    (`impl SignalTerminator { unsafe fn finish(&self, state: u8) { let this = self.0; .. } }`): when `Signal::wake` is gone and
+    exactly one private method of SignalTerminator has its signature with the pointer replaced by the terminator, and that method
+    uses `self` only to read the wrapped pointer, it is rewritten into the pinned form - parameter 1 becomes the pointer, every
+    `self.0` becomes the parameter, call sites pass `term.0` - and takes the pinned name.  Anything else is left alone."""
+    bodies = {b['key']: b for b in j['bodies']}
+    canon_key = 'signal::Signal::<T>::wake'
+    if canon_key in bodies:
+        return None
+    cands = []
+    for b in j['bodies']:
+        if b.get('def_kind') != 'AssocFn' or b.get('impl_trait') or b.get('vis') == 'Public' or b.get('arg_count') != 2:
+            continue
+        if nolt(b.get('impl_self') or '') != 'signal::SignalTerminator<T>':
+            continue
+        t1 = nolt(b['locals'][1]['ty'])
+        if t1 not in ('&signal::SignalTerminator<T>', 'signal::SignalTerminator<T>') or b['locals'][2]['ty'] != 'u8' or b['locals'][0]['ty'] != '()':
+            continue
+        cands.append(b)
+    if len(cands) != 1:
+        return None
+    b = cands[0]
+    byref = nolt(b['locals'][1]['ty']).startswith('&')
+    prefix_len = 2 if byref else 1
+
+    def strip(pl):
+        """place based on local 1 must start with the projection to field 0: returns False if it does not"""
+        if pl.get('l') != 1:
+            return True
+        pr = pl.get('p') or []
+        if byref:
+            ok = len(pr) >= 2 and pr[0] == '*' and isinstance(pr[1], dict) and pr[1].get('f') == '0'
+        else:
+            ok = len(pr) >= 1 and isinstance(pr[0], dict) and pr[0].get('f') == '0'
+        if not ok:
+            return False
+        pl['p'] = pr[prefix_len:]
+        return True
+
+    nb = json.loads(json.dumps(b))
+    ok = [True]
+
+    def walk(x):
+        if isinstance(x, dict):
+            if 'l' in x and 'p' in x and isinstance(x.get('p'), list):
+                if not strip(x):
+                    ok[0] = False
+            for v in x.values():
+                walk(v)
+        elif isinstance(x, list):
+            for v in x:
+                walk(v)
+
+    walk(nb['blocks'])
+    if not ok[0]:
+        return None
+    nb['locals'][1] = {'ty': '*const signal::Signal<T>', 'name': 'this'}
+    old_key = b['key']
+    nb['key'] = canon_key
+    nb['actual_key'] = old_key
+    nb['name'] = 'wake'
+    nb['impl_self'] = 'signal::Signal<T>'
+    nb['sig'] = 'unsafe fn(*const signal::Signal<T>, u8)'
+    # call sites
+    for c in j['bodies']:
+        for body in [c] + list(c.get('promoted') or []):
+            for blk in body['blocks']:
+                t = blk['term']
+                if t['k'] == 'call' and t.get('fn') and t['fn'].get('path') == old_key:
+                    a0 = t['args'][0] if t.get('args') else None
+                    if not (a0 and a0.get('k') in ('copy', 'move') and 'p' in a0):
+                        return None
+    for c in j['bodies']:
+        for body in [c] + list(c.get('promoted') or []):
+            for blk in body['blocks']:
+                t = blk['term']
+                if t['k'] == 'call' and t.get('fn') and t['fn'].get('path') == old_key:
+                    a0 = t['args'][0]
+                    proj = (['*'] if byref else []) + [{'f': '0', 'i': 0, 'ty': '*const signal::Signal<T>'}]
+                    t['args'][0] = {'k': 'copy', 'p': {'l': a0['p']['l'], 'p': list(a0['p'].get('p') or []) + proj, 'ty': '*const signal::Signal<T>'}}
+                    t['fn'] = dict(t['fn'], path=canon_key, name='wake', full=canon_key, impl_self='signal::Signal<T>')
+    j['bodies'] = [x for x in j['bodies'] if x is not b] + [nb]
+    return old_key
+
+
+
 def split_sig(sig):
     """'fn(A, B<C, D>, E) -> R' -> (prefix up to and including '(', [inputs], rest from ')')"""
     i = sig.index('fn(') + 3
@@ -1110,6 +1327,18 @@ def resolve(j):
         pass
     try:
         resolve_variants(j)
+    except Exception:
+        pass
+    try:
+        canonicalise_ptr_methods(j)
+    except Exception:
+        pass
+    try:
+        adopt_terminator_wake(j)
+    except Exception:
+        pass
+    try:
+        materialise_branching_consts(j)
     except Exception:
         pass
     try:
